@@ -38,6 +38,16 @@ CHECKS["C13"] = dict(
     technique="static analysis: backward SSA value-flow (go/ssa + VTA callers) and AST shape rules on instantiated router code",
     design="§4 C13")
 
+CHECKS["C01"] = dict(
+    text="All specs/flags (S1): SSA rule that every file write on the generation path writes the formatter's (imports.Process) output on its "
+         "success branch and that a formatter failure returns an error — so success implies syntactically valid, gofmt-stable files by go/format's "
+         "contract; error-propagation discipline in goag/cmd; O_TRUNC; one naming function per parameter location on handler and client side. "
+         "Type-correctness of the composed template output is NOT decidable statically here and is sampled: every corpus program instantiated from "
+         "the current templates must parse, be gofmt-idempotent and type-check.",
+    note=TRUST + " go/format emits valid gofmt-stable Go. Clause (b) (type-checks) is corpus-bounded.",
+    technique="static analysis: SSA dominance/value rules + AST error-discipline lint on the generator; go/types over instantiated corpus packages",
+    design="§4 C01")
+
 NA_REASON = {}
 DEFAULT_NA = "not claimed yet: static checker for this property is still under construction (design in DESIGN.md §4)"
 
